@@ -215,6 +215,18 @@ func C04(c *core.Ctx) {
 			c.Violation("judge-go", "c04-no-chunk", "Send of a RawMessage without a chunk succeeded with acks required", nil)
 		}
 	}
+	// a connection that cannot arm the read deadline, and a silent peer: nothing bounds the wait for the ack, so the
+	// send has to fail (the failure of SetReadDeadline is its error), not sit in a read that no timer will end
+	{
+		o := mkSend(cf, sizedMessage(r, "message", 10, "no-deadline"), -1)
+		o.silent, o.dlErr = true, true
+		rs := sendCase(c, "c04", cf, []cop{o}, "silent peer on a connection whose SetReadDeadline fails")
+		c.Hist("deadline cannot be armed, silent peer -> " + rs[1].ret)
+		if rs[1].ret != "err" || rs[1].dur > timeout+slack {
+			c.Violation("judge-go", "c04-unarmed-deadline", fmt.Sprintf("Send returned %s after %v on a connection whose SetReadDeadline failed, with a silent peer and a %v timeout", rs[1].ret, rs[1].dur, timeout),
+				map[string]interface{}{"ret": rs[1].ret, "events": trunc(strings.Join(rs[1].events, ","), 300)})
+		}
+	}
 	// sequences of several sends on one connection
 	for t := 0; t < c.N(20, 600); t++ {
 		n := 2 + r.Intn(3)
